@@ -99,6 +99,37 @@ Proof.
   now apply file_location_independent_gen.
 Qed.
 
+(* ---------- the cross-file rule (dry): the same, for the whole run ---------- *)
+Lemma denotes_true_rel e f s : denotes e f s -> true_rel e (f_given f) = s_rel s.
+Proof. intros (_ & Hres & _). unfold true_rel. rewrite Hres, strip_prefix_app. reflexivity. Qed.
+
+Lemma participates_off q e f s : flags_off q -> denotes e f s -> participates q e f = s_participates (e_root_pats e) s.
+Proof.
+  intros (H2 & H3 & H4 & H5) Hd. unfold participates, s_participates, orch_ignored.
+  rewrite (denotes_true_rel _ _ _ Hd), exclusion_scope_now, andb_false_r, H2. destruct Hd as (Hn & _). rewrite Hn. reflexivity.
+Qed.
+
+Lemma partners_off q e files sfiles l : flags_off q -> Forall2 (denotes e) files sfiles ->
+  partners q e files l = s_partners (e_root_pats e) sfiles l.
+Proof.
+  intros Hq HF. unfold partners, s_partners. induction HF as [|f s fs ss Hd _ IH]; [reflexivity|].
+  cbn [filter]. rewrite (participates_off _ _ _ _ Hq Hd). destruct Hd as (_ & _ & Hl & _). rewrite Hl.
+  destruct (s_participates (e_root_pats e) s && lang_eqb (s_lang s) l); cbn [List.length]; now rewrite IH.
+Qed.
+
+Theorem dry_location_independent q e sg cfg files sfiles :
+  flags_off q -> Forall2 (denotes e) files sfiles ->
+  dry_result q e sg cfg files = dry_spec (e_root_pats e) sg cfg sfiles.
+Proof.
+  intros Hq HF. unfold dry_result, dry_spec.
+  assert (HP : forall l, partners q e files l = s_partners (e_root_pats e) sfiles l) by (intros l; now apply partners_off).
+  revert HP. generalize (partners q e files) (s_partners (e_root_pats e) sfiles). intros pa pb HP.
+  induction HF as [|f s fs ss Hd _ IH]; [reflexivity|].
+  cbn [map]. rewrite IH. f_equal.
+  rewrite (participates_off _ _ _ _ Hq Hd), HP. unfold dry_ignored. rewrite (denotes_true_rel _ _ _ Hd).
+  destruct Hq as (_ & H3 & _). rewrite H3. destruct Hd as (_ & _ & Hl & Hr). rewrite Hl, Hr. reflexivity.
+Qed.
+
 (* the headline: the same project at two locations / from two working directories / in two spellings *)
 Theorem two_locations_agree q sg cfg e1 e2 files1 files2 sfiles :
   flags_off q -> e_root_pats e1 = e_root_pats e2 ->
